@@ -7,3 +7,9 @@ import VibeProof.Props.C32
 #print axioms VibeProof.C32.C32_pushdown_through_projection
 #print axioms VibeProof.C32.C32_filter_compose
 #print axioms VibeProof.C32.C32_star_view_is_table
+#print axioms VibeProof.C32.C32_chain_single
+#print axioms VibeProof.C32.C32_chain_unfold
+#print axioms VibeProof.C32.C32_unused_definition
+#print axioms VibeProof.C32.C32_independent_definitions_commute
+#print axioms VibeProof.C32.C32_star_over_definition
+#print axioms VibeProof.Sql.Core.eval_width
